@@ -1,5 +1,6 @@
 import Capella.Lemmas.PodsH
 import Capella.Lemmas.PodsToy
+import Capella.Lemmas.PodsSpec2
 import Capella.Gen.Pods
 
 /-!
@@ -143,6 +144,17 @@ classes), so by the frame theorem assigning one typed attribute never changes an
 theorem slots_do_not_alias : ∀ c ∈ Capella.Gen.Pods.chunks, slotsDistinct c = true :=
   Capella.Gen.Pods.chunks_distinct
 
+/-- **Specifications (`_Specification`) are a mapping**: on a specification whose `languages` and
+`bodies` children pair up (what Capella writes), for arbitrary other children interleaved, a
+successful `spec[k] = v` keeps the pairing, `spec[k]` then returns `v` (for `LinkedText` /
+`capella:linkedText`: the rendering of the escaped form, `unescape(escape(v))`), and every other
+key reads what it read before. (`LinkedText` and `capella:linkedText` are one key.) -/
+theorem spec_get_set (P : Params) (s s' : Spec) (k v : Str) (hb : Balanced s)
+    (h : specSet P s k v = .ok s') :
+    Balanced s' ∧ specGet P s' k = .ok (specView P k v) ∧
+      ∀ k', specAlias k' ≠ specAlias k → specGet P s' k' = specGet P s k' :=
+  spec_get_set' s s' k v hb h
+
 /-- `int(str(i)) == i` for every integer (own decimal codec, ASCII). -/
 theorem int_codec (i : Int) : pyIntParse (pyIntRepr i) = some i ∧ xmlOk (pyIntRepr i) = true :=
   ⟨pyIntParse_repr i, xmlOk_pyIntRepr i⟩
@@ -174,6 +186,9 @@ example : Pods.get Toy.params ⟨.datetime, ['v'], true⟩ [(['v'], "1999-12-31T
     = .ok (.aware (1 : Fin 3)) := by rfl
 example : Pods.set Toy.params ⟨.enum Capella.Gen.Pods.e_ControlNodeKind "OR".toList, ['k'], true⟩
     [(['k'], "AND".toList)] (.str "OR".toList) = .ok [] := by rfl
+example : specSet Toy.params [⟨['x'], none⟩, ⟨tBodies, some ['o','l','d']⟩, ⟨tLanguages, some ['p','y']⟩] ['p','y'] ['n','e','w']
+    = .ok [⟨['x'], none⟩, ⟨tBodies, some ['n','e','w']⟩, ⟨tLanguages, some ['p','y']⟩] := by rfl
+example : specGet Toy.params [⟨tBodies, some ['b']⟩, ⟨tLanguages, some kLinked⟩] kAlias = .ok ['b'] := by rfl
 example : Pods.set Toy.params ⟨.string, ['i','d'], false⟩ [(['i','d'], ['x'])] (.str ['y'])
     = .error .typeError := by rfl
 
